@@ -791,13 +791,23 @@ class H2Connection:
             )
 
         self.state_machine.process_input(ConnectionInputs.SEND_HEADERS)
+        new_stream = stream_id not in self.streams
+        previous_highest_id = self.highest_outbound_stream_id
         stream = self._get_or_create_stream(
             stream_id, AllowedStreamIDs(self.config.client_side)
         )
-        frames = stream.send_headers(
-            headers, self.encoder, end_stream,
-            reserved_bytes=5 if priority_present else 0
-        )
+        try:
+            frames = stream.send_headers(
+                headers, self.encoder, end_stream,
+                reserved_bytes=5 if priority_present else 0
+            )
+        except Exception:
+            if new_stream:
+                # Nothing was sent, so the stream was never opened: forget
+                # it and give its ID back.
+                self.streams.pop(stream_id, None)
+                self.highest_outbound_stream_id = previous_highest_id
+            raise
 
         if priority_present:
             headers_frame = frames[0]
@@ -989,15 +999,23 @@ class H2Connection:
         if (stream_id % 2) == 0:
             raise ProtocolError("Cannot recursively push streams.")
 
+        previous_highest_id = self.highest_outbound_stream_id
         new_stream = self._begin_new_stream(
             promised_stream_id, AllowedStreamIDs.EVEN
         )
         self.streams[promised_stream_id] = new_stream
 
-        frames = stream.push_stream_in_band(
-            promised_stream_id, request_headers, self.encoder
-        )
-        new_frames = new_stream.locally_pushed()
+        try:
+            frames = stream.push_stream_in_band(
+                promised_stream_id, request_headers, self.encoder
+            )
+            new_frames = new_stream.locally_pushed()
+        except Exception:
+            # Nothing was sent, so nothing was promised: forget the stream
+            # and give its ID back.
+            self.streams.pop(promised_stream_id, None)
+            self.highest_outbound_stream_id = previous_highest_id
+            raise
         self._prepare_for_sending(frames + new_frames)
 
     def ping(self, opaque_data):
